@@ -116,6 +116,10 @@ def dtest(ctx, shard, nshards):
                 b = a
             ta, tb, ka, kb = _txt(rep, a, sa), _txt(rep, b, sb), a * 86400 + sa, b * 86400 + sb
             tagrep = rep + "+t"
+            if rnd.random() < 0.3:
+                # both operands read in the same zone of constant offset: the order is the same
+                pre = ["--from-zone", rnd.choice(("Etc/GMT+5", "Etc/GMT-14", "Etc/GMT+12", "UTC"))]
+                tagrep += "+zone"
         else:
             ta, tb, ka, kb = _txt(rep, a, None), _txt(rep, b, None), a, b
             tagrep = rep
